@@ -508,8 +508,8 @@ async fn replay_file(w: &mut World, log: &mut Log, st: &mut Stats, path: &str, c
         if line.starts_with("thrcase ") {
             in_thr = true;
             started = true;
-            let seed: u64 = line.split_whitespace().nth(1).and_then(|s| s.parse().ok()).unwrap_or(1);
-            thr::run_case(log, st, seed);
+            let tag = line.split_whitespace().nth(1).unwrap_or("1").to_string();
+            thr::run_tagged(log, st, &tag);
             continue;
         }
         if line.starts_with("case") {
@@ -571,6 +571,10 @@ pub fn main_with(cluster: bool) {
             thr::race_round(&mut log, &mut st, i, 4);
         }
     }
+    if !only_replay && mode == "thrx" {
+        // exhaustive: every interleaving of the fixed small programs (cases = cap per scenario)
+        thr::exhaustive(&mut log, &mut st, cases);
+    }
     st.add("lines", log.lines);
     st.write_json(&std::path::Path::new(&out).join("stats.json"));
     log.finish();
@@ -601,11 +605,10 @@ mod thr {
         Lookup { found: Option<(ractor::ActorId, u64)> },
     }
 
-    #[derive(Default)]
     struct Shared {
         ctx: Mutex<HashMap<usize, Act>>,
         events: Mutex<Vec<Ev>>,
-        cells: Mutex<HashMap<u64, ActorCell>>, // k -> cell of actors this harness spawned
+        done: std::sync::Barrier,
     }
 
     fn thread_body(tid: usize, prog: Vec<Act>, sh: Arc<Shared>, ctl: Arc<ThreadCtl>) {
@@ -658,9 +661,12 @@ mod thr {
                 }
             }
         });
-        drop(rt);
+        // the case is over for this thread; actors it still owns are torn down (unobserved) only
+        // when every thread is done, so that the tables stay put while others are still stepping
         verif::thread_unregister();
         ctl.finish();
+        sh.done.wait();
+        drop(rt);
     }
 
     /// Programs: every thread spawns under shared names, looks names up, exits its own
@@ -740,11 +746,89 @@ mod thr {
         );
     }
 
+    pub enum Sched {
+        Random { rng: Rng, sticky: u64 },
+        /// scripted prefix (index into the parked list at every branching step), then always 0
+        Script { prefix: Vec<usize>, taken: Vec<usize>, opts: Vec<usize> },
+    }
+
+    /// fixed small programs of the exhaustive sweep
+    fn scenario(i: u64) -> Option<Vec<Vec<Act>>> {
+        Some(match i {
+            // two threads race for one name (the winner is stopped when the case is over)
+            0 => vec![vec![Act::Spawn { k: 0, n: 0, fail: false }], vec![Act::Spawn { k: 1, n: 0, fail: false }]],
+            // an exit raced by lookups
+            1 => vec![vec![Act::Spawn { k: 0, n: 0, fail: false }, Act::Exit { k: 0, kill: false }],
+                      vec![Act::Lookup { n: 0 }, Act::Lookup { n: 0 }, Act::Lookup { n: 0 }]],
+            // three threads: two spawns under one name and lookups
+            2 => vec![vec![Act::Spawn { k: 0, n: 0, fail: false }], vec![Act::Spawn { k: 1, n: 0, fail: false }],
+                      vec![Act::Lookup { n: 0 }, Act::Lookup { n: 0 }]],
+            // a failing start (the lifecycle guard releases the name) raced by a spawn under that name
+            3 => vec![vec![Act::Spawn { k: 0, n: 0, fail: true }], vec![Act::Spawn { k: 1, n: 0, fail: false }]],
+            _ => return None,
+        })
+    }
+
+    /// `thrcase <seed>` (random) or `thrcase x:<scenario>:<choices>` (scripted schedule)
+    pub fn run_tagged(log: &mut Log, st: &mut Stats, tag: &str) {
+        if let Some(rest) = tag.strip_prefix("x:") {
+            let mut it = rest.split(':');
+            let scn: u64 = it.next().and_then(|x| x.parse().ok()).unwrap_or(0);
+            let prefix: Vec<usize> = it.next().unwrap_or("").chars().filter_map(|c| c.to_digit(10).map(|d| d as usize)).collect();
+            if let Some(progs) = scenario(scn) {
+                let mut sched = Sched::Script { prefix, taken: vec![], opts: vec![] };
+                run_progs(log, st, tag.to_string(), progs, &mut sched);
+            }
+        } else {
+            run_case(log, st, tag.parse().unwrap_or(1));
+        }
+    }
+
+    /// every schedule of every fixed scenario (stateless DFS), at most `max_runs` per scenario
+    pub fn exhaustive(log: &mut Log, st: &mut Stats, max_runs: u64) {
+        let mut scn = 0;
+        while scenario(scn).is_some() {
+            let mut stack: Vec<Vec<usize>> = vec![vec![]];
+            let mut runs = 0u64;
+            while let Some(prefix) = stack.pop() {
+                if runs >= max_runs {
+                    st.bump("thrx_truncated");
+                    break;
+                }
+                let plen = prefix.len();
+                let tag = format!("x:{scn}:{}", prefix.iter().map(|c| c.to_string()).collect::<String>());
+                let mut sched = Sched::Script { prefix, taken: vec![], opts: vec![] };
+                run_progs(log, st, tag, scenario(scn).unwrap(), &mut sched);
+                runs += 1;
+                if let Sched::Script { taken, opts, .. } = sched {
+                    for i in (plen..taken.len()).rev() {
+                        for alt in 1..opts[i] {
+                            let mut p = taken[..i].to_vec();
+                            p.push(alt);
+                            stack.push(p);
+                        }
+                    }
+                }
+            }
+            st.add(&format!("thrx_schedules_scn{scn}"), runs);
+            scn += 1;
+        }
+    }
+
     pub fn run_case(log: &mut Log, st: &mut Stats, seed: u64) {
         let mut rng = Rng::new(seed);
         let progs = gen_programs(&mut rng);
         let sticky = rng.below(4); // 0: uniform; else: keep running the same thread with prob.
-        let sh = Arc::new(Shared::default());
+        let mut sched = Sched::Random { rng, sticky };
+        run_progs(log, st, seed.to_string(), progs, &mut sched);
+    }
+
+    fn run_progs(log: &mut Log, st: &mut Stats, seed: String, progs: Vec<Vec<Act>>, sched: &mut Sched) {
+        let sh = Arc::new(Shared {
+            ctx: Mutex::new(HashMap::new()),
+            events: Mutex::new(Vec::new()),
+            done: std::sync::Barrier::new(progs.len() + 1), // the threads and the controller
+        });
         let mut w = World::default();
         log.rec(format!("thrcase {seed} pid=0"), format!("ok | {}", w.view()));
         st.bump("thr_cases");
@@ -790,11 +874,23 @@ mod thr {
             if parked.is_empty() {
                 break;
             }
-            let pick = match last {
-                Some(l) if sticky > 0 && parked.iter().any(|(t, _)| *t == l) && rng.chance(sticky, 4) => {
-                    parked.iter().position(|(t, _)| *t == l).unwrap()
+            let pick = match sched {
+                Sched::Random { rng, sticky } => match last {
+                    Some(l) if *sticky > 0 && parked.iter().any(|(t, _)| *t == l) && rng.chance(*sticky, 4) => {
+                        parked.iter().position(|(t, _)| *t == l).unwrap()
+                    }
+                    _ => rng.below(parked.len() as u64) as usize,
+                },
+                Sched::Script { prefix, taken, opts } => {
+                    if parked.len() > 1 {
+                        let c = prefix.get(taken.len()).copied().unwrap_or(0).min(parked.len() - 1);
+                        taken.push(c);
+                        opts.push(parked.len());
+                        c
+                    } else {
+                        0
+                    }
                 }
-                _ => rng.below(parked.len() as u64) as usize,
             };
             let (tid, point) = parked[pick];
             last = Some(tid);
@@ -870,6 +966,8 @@ mod thr {
                 }
             }
         }
+        // everything is logged: now the threads may tear their runtimes down
+        sh.done.wait();
         for h in handles {
             let _ = h.join();
         }
